@@ -42,9 +42,14 @@ ASSUMPTIONS = [
     "in get_new_outcomes_and_conditions decide which condition is exchanged first); the model takes that order as the "
     "parameter kordf, the harness drives the real code through both orders and judges every distinct answer",
     "termination of the model is by fuel (2(|outcomes|+|conditions|) + |V| + 4): the inner ID* calls terminate by theorem "
-    "(C07 idstar_never_out_of_fuel); for IDC*'s own line-4 recursion no decreasing measure is proved (|conditions| and the "
-    "number of keys do NOT always decrease, see Props/C08.lean), it is checked on every generated input (an exhausted fuel would "
-    "be a correspondence disagreement; 50 000 extra random inputs: depth <= |conditions| + 1); the division `e / d` is modelled for the operands IDC* can produce (an ID* estimand is never a Fraction)",
+    "(C07 idstar_never_out_of_fuel); IDC*'s own line-4 recursion terminates by theorem with the explicit bound |conditions| + 1 "
+    "on every input in which no variable NAME occurs both among the outcomes and among the conditions "
+    "(idcstar_own_recursion_terminates / idcstar_bound_suffices; idcStarO = the model with its own fuel exhaustion observable, "
+    "idcstar_model_is_idcStarO). OPEN when an outcome and a condition are copies of one variable: |conditions| can grow there "
+    "(the re-association puts merged keys into both dicts, an exchange can split a shared key), no measure is proved and no "
+    "looping input is known (95 000 random inputs incl. shared names / shared keys / 5 worlds: depth <= |conditions| + 1); it is "
+    "checked on every generated input (an exhausted fuel would be a correspondence disagreement, a RecursionError of the real "
+    "code a crash = VIOLATION); the division `e / d` is modelled for the operands IDC* can produce (an ID* estimand is never a Fraction)",
     "pairs in which the same counterfactual variable V_S occurs both as an outcome and as a condition are left out of the "
     "checked domain (idc_star merges the two dicts, the condition's value silently wins)",
     "a wrong value / wrong Zero is classified by the FIRST step of IDC*'s own chain of claims that an independent exact "
